@@ -247,7 +247,7 @@ func c01StatusAs(r *core.Run, u *undoWorld, rule string) {
 }
 
 func checkC10(r *core.Run) {
-	r.Explain = "Decided statically: (C10.tx) the undo routine runs in one database/sql transaction that is committed on every nil return and rolled back on every error return (shared with C01.tx), so a failed attempt leaves no partial compensation; (C10.marker) when no undo-log record exists the routine inserts a record whose status is the global-finished constant before Commit, and that constant is not one for which CanUndo answers true, so a repeated delivery returns without replaying and a late phase one cannot insert its undo log; (C10.late) the late flush inserts with the same statement and the same (branch_id, xid) argument positions as the marker, and its error reaches the AT commit's failure path (C02.fail). NOT decided: database state after retries at each statement index; the unique index itself (schema)."
+	r.Explain = "Decided statically: (C10.status) every delivery of a branch rollback answers 'rollbacked' only on the nil-error edge of its own undo run (no answer remembered from an earlier delivery); (C10.tx) the undo routine runs in one database/sql transaction that is committed on every nil return and rolled back on every error return (shared with C01.tx), so a failed attempt leaves no partial compensation; (C10.marker) when no undo-log record exists the routine inserts a record whose status is the global-finished constant before Commit, and that constant is not one for which CanUndo answers true, so a repeated delivery returns without replaying and a late phase one cannot insert its undo log; (C10.late) the late flush inserts with the same statement and the same (branch_id, xid) argument positions as the marker, and its error reaches the AT commit's failure path (C02.fail). NOT decided: database state after retries at each statement index; the unique index itself (schema)."
 	r.Trusted = []string{"go/types, go/cfg", "database/sql", "unique (xid, branch_id) index on undo_log (schema)"}
 	w := r.W
 	u := resolveUndoWorld(r, "C10.anchor")
@@ -255,6 +255,9 @@ func checkC10(r *core.Run) {
 		return
 	}
 	c01Tx(r, u, "C10")
+	// a repeated delivery is answered 'rollbacked' only when this delivery's own undo run returned nil (shared with C01.status)
+	c01StatusAs(r, u, "C10.status")
+	r.Floor("C10.status", 2)
 	// ---- C10.marker
 	for _, fn := range u.undoFns {
 		sp := &flow.Spec{W: w, Depth: 2, Split: []flow.Tag{"sawrecord"},
